@@ -186,6 +186,7 @@ func (r *HarnessResult) merge(o *HarnessResult) {
 	r.Solver.Sat += o.Solver.Sat
 	r.Solver.Unsat += o.Solver.Unsat
 	r.Solver.Unknown += o.Solver.Unknown
+	r.Solver.Killed += o.Solver.Killed
 	r.Solver.Errors += o.Solver.Errors
 	r.Solver.Time += o.Solver.Time
 	if o.Solver.MaxQuery > r.Solver.MaxQuery {
@@ -797,7 +798,7 @@ func (w *Worker) runJob(job Job) {
 		}
 	}
 	s1 := w.solver.Stats
-	w.res.Solver = sym.SolverStats{Sat: s1.Sat - s0.Sat, Unsat: s1.Unsat - s0.Unsat, Unknown: s1.Unknown - s0.Unknown,
+	w.res.Solver = sym.SolverStats{Sat: s1.Sat - s0.Sat, Unsat: s1.Unsat - s0.Unsat, Unknown: s1.Unknown - s0.Unknown, Killed: s1.Killed - s0.Killed,
 		Errors: s1.Errors - s0.Errors, Time: s1.Time - s0.Time, MaxQuery: s1.MaxQuery}
 	for k, v := range w.tb.LemmaUse {
 		w.res.Lemmas[k] += v
